@@ -38,6 +38,9 @@ func runC11(c *Ctx) {
 		// every listener a generation serves was acquired through its own listener set, which is what stopping the generation
 		// releases: a handle taken from the manager directly is never closed and keeps competing for the address
 		ruleBind(c, a)
+		// "keys present in both configurations keep working": a key is left out of a service's list only when that same list
+		// already holds it
+		ruleDedup(c, a)
 	}
 	ms := findMultiListeners(c, "REFCOUNT")
 	c.Floor("REFCOUNT", "shared-listener types with an Acquire method", len(ms), 2)
@@ -76,6 +79,11 @@ func ruleSurvive(c *Ctx) {
 	var roots []*ssa.Function
 	for _, f := range c.P.FnsIn("service") {
 		if f.Name() == "Handle" && f.Signature.Recv() != nil && f.Signature.Params().Len() == 3 {
+			roots = append(roots, f)
+		}
+		// the service's entry for one accepted connection (what StreamServe is given): (ctx, conn)
+		if f.Signature.Recv() != nil && f.Parent() == nil && !c.P.IsTestSupport(f) && f.Signature.Params().Len() == 2 &&
+			f.Signature.Params().At(0).Type().String() == "context.Context" && strings.HasSuffix(f.Signature.Params().At(1).Type().String(), "StreamConn") {
 			roots = append(roots, f)
 		}
 	}
